@@ -55,7 +55,8 @@ class Job:
         self.notes = []
         self.bounds = {}
         self.assumptions = set()
-        self.timeout_ms = 60000 if tier == "quick" else 180000
+        self.timeout_ms = 30000 if tier == "quick" else 120000
+        self.unknowns = 0
 
     # -- exploration
     def explore(self, fn, max_paths=400, label=None):
@@ -100,7 +101,13 @@ class Job:
                     v, model, _ = ctx.solve(*extra, timeout_ms=self.timeout_ms)
                     verdict = {"sat": "sat", "unsat": "unsat"}.get(v, "unknown")
             else:
-                verdict, model, _ = ctx.prove(term, timeout_ms=self.timeout_ms, extra=extra)
+                fast = self.unknowns >= 2          # budget: after two undecided obligations fail fast
+                verdict, model, _ = ctx.prove(term, timeout_ms=4000 if fast else self.timeout_ms, extra=extra,
+                                              retry=not fast)
+                if verdict == "unknown":
+                    self.unknowns += 1
+                    model = ctx.refute_with_hints(term, extra=extra)
+                    hinted = True
         except z3.Z3Exception as e:
             verdict, model = "unknown", None
             self.notes.append("z3 exception on %s: %s" % (name, e))
@@ -110,7 +117,7 @@ class Job:
         if isinstance(term, bool) or z3.is_true(z3.simplify(term)):
             rec["trivial"] = True      # decided without the solver (concrete outcome)
         self.obligations.append(rec)
-        if verdict == "sat" and cex is not None:
+        if (verdict == "sat" or verdict == "unknown") and cex is not None:
             try:
                 args = cex(model)
                 if args is not None:
@@ -221,27 +228,30 @@ def main(check_module, argv=None):
                 seen.add(k)
                 cands.append(dict(c, job=r["job"]))
 
-    # ---- replay every candidate on the real package
+    # ---- replay candidates on the real package: per failed obligation (job, name) until one reproduces
     known = load_known(pid)
     violations, known_hits, unreproduced = [], [], []
-    per_why = {}
+    by_key = {}
     for c in cands:
-        if len(violations) >= 6:
+        by_key.setdefault((c["job"], c["why"]), []).append(c)
+    explained_keys = set()
+    replayed = 0
+    for key, cs in by_key.items():
+        if len(violations) >= 8:
             break
-        wk = (c["job"], c["oracle"], c["why"].split(" [")[0])
-        per_why[wk] = per_why.get(wk, 0) + 1
-        if per_why[wk] > 2 or sum(per_why.values()) > 120:
-            continue
-        res = run_oracle(mod.__name__, c["oracle"], c["args"])
-        c["replay"] = res
-        if res.get("violated") is True:
-            tag = res.get("class") or ""
-            hit = next((k for k in known if k.get("oracle") == c["oracle"] and k.get("class") == tag and tag), None)
-            if hit:
-                known_hits.append((hit, c))
-            else:
-                violations.append(c)
-        else:
+        for c in cs[:4]:
+            res = run_oracle(mod.__name__, c["oracle"], c["args"])
+            replayed += 1
+            c["replay"] = res
+            if res.get("violated") is True:
+                tag = res.get("class") or ""
+                hit = next((k for k in known if k.get("oracle") == c["oracle"] and k.get("class") == tag and tag), None)
+                if hit:
+                    known_hits.append((hit, c))
+                else:
+                    violations.append(c)
+                explained_keys.add(key)
+                break
             unreproduced.append(c)
 
     os.makedirs(os.path.join(VERIF, "replays"), exist_ok=True)
@@ -262,8 +272,10 @@ def main(check_module, argv=None):
         print("  what: %s -- %s" % (c["why"], short(c["replay"].get("detail"), 300)))
 
     # an undischarged obligation whose candidate did not reproduce (or has none) is inconclusive
-    explained = len(violations) + len(known_hits)
-    inconclusive = bool(undecided) or (bool(failed) and explained == 0) or bool(unreproduced and not explained)
+    unexplained = [o for o in failed if (o["job"], o["name"]) not in explained_keys]
+    if len(violations) >= 8:
+        unexplained = []
+    inconclusive = bool(undecided) or bool(unexplained)
     status = 1 if violations else (2 if inconclusive else 0)
 
     stats = {}
@@ -293,8 +305,9 @@ def main(check_module, argv=None):
             functions_encoded=functions, bounds=bounds,
             jobs=[dict(job=r["job"], wall_s=r["wall_s"], obligations=len(r["obligations"]),
                        discharged=sum(1 for o in r["obligations"] if o["verdict"] == "unsat")) for r in results],
-            candidates_replayed=len(cands), replays_reproduced=len(violations) + len(known_hits),
+            candidates_replayed=replayed, replays_reproduced=len(violations) + len(known_hits),
             known_findings_seen=sorted(printed), unreproduced_candidates=[c["why"] for c in unreproduced][:10],
+            unexplained_failed_obligations=[dict(job=o["job"], name=o["name"]) for o in unexplained][:20],
             solver="z3 %s" % z3.get_version_string(), source_digest=loader.source_digest(),
             samples=samples, notes=notes[:20],
             trusted_base=getattr(mod, "TRUSTED", []),
@@ -309,7 +322,7 @@ def main(check_module, argv=None):
         pid, tier, n_ok, n_ob, stats.get("paths", 0), stats.get("queries", 0), stats.get("solver_s", 0.0),
         time.time() - t0, ev["status"]))
     if status == 2:
-        for o in (failed + undecided)[:10]:
+        for o in (unexplained + undecided)[:10]:
             print("  INCONCLUSIVE %s / %s: %s" % (o["job"], o["name"], o["verdict"]))
         for n in notes[:10]:
             print("  note:", short(n, 400))
